@@ -447,10 +447,14 @@ def handle_confinement(fx):
                   "alloc::sync::Arc::<T>::into_raw", SPAWN}
     hosts = 0
     for f in ro.fns_in_scope(fx, crates=("libxcp",)):
-        news = q.calls_to(f, NEW)
-        # handles created here, and handles received as parameters (closures run on a handle, helper functions)
-        seeds = [t["dest"]["l"] for _, t in news]
-        if f.path not in (NEW, DROP) and not f.path.startswith("libxcp::operations::CopyHandle::"):
+        # handles obtained here (results of calls that yield a CopyHandle, by value or wrapped), and handles received
+        # as parameters (closures run on a handle, helper functions)
+        seeds = [t["dest"]["l"] for _, t in f.calls() if COPYHANDLE in t.get("dest_ty", "") and not t["dest"].get("p")
+                 and not t.get("dest_ty", "").startswith("&") and callee_orig(t) not in (
+                     "core::ops::try_trait::Try::branch", "core::ops::deref::Deref::deref")]
+        builds = any(s_["rv"]["k"] == "agg" and s_["rv"].get("adt") == COPYHANDLE for b_ in f.blocks for s_ in b_["stmts"])
+        is_method = bool(f.argc) and COPYHANDLE in f.locals[1]["ty"] and f.locals[1]["ty"].startswith("&")
+        if f.path != DROP and not builds and not is_method:
             seeds += [l for l in range(1, f.argc + 1) if COPYHANDLE in f.locals[l]["ty"] and not f.locals[l]["ty"].startswith("&")]
         if not seeds:
             continue
@@ -503,12 +507,16 @@ def handle_confinement(fx):
                       "Arc<CopyHandle> clones go only into pool jobs: %s" % (not bad), dict(escapes=bad) if bad else None))
     if hosts < 3:
         obs.append(anchor_ob("R-THREAD", "functions holding CopyHandles (found %d)" % hosts))
-    # return types: nobody returns a handle upward except CopyHandle::new
+    # return types: only constructors (functions from which the CopyHandle aggregate is reachable without any
+    # handle parameter) return a handle upward; a function that receives handles and returns one is a store
+    cg = q.callgraph(fx)
     for g in ro.fns_in_scope(fx, crates=("libxcp",)):
         rt = g.locals[0]["ty"]
-        if COPYHANDLE in rt and g.path != NEW:
-            obs.append(Ob("R-THREAD", mkkey("R-THREAD", g.path, "returns CopyHandle", 0), False, g.loc(), g.path,
-                          "a function other than CopyHandle::new returns a handle to its caller", dict(ret=rt)))
+        if COPYHANDLE in rt and not g.is_closure:
+            takes = any(COPYHANDLE in g.locals[l]["ty"] and not g.locals[l]["ty"].startswith("&") for l in range(1, g.argc + 1))
+            ok = not takes
+            obs.append(Ob("R-THREAD", mkkey("R-THREAD", g.path, "returns CopyHandle", 0), ok, g.loc(), g.path,
+                          "a function returning a handle is a constructor (takes no handle): %s" % ok, None if ok else dict(ret=rt)))
     return obs
 
 
